@@ -23,7 +23,8 @@ def run_histories(sc, tier, verdict):
         raise vlib.ToolError("Gen_Server failed:\n" + gen.out[-2000:])
     rng = random.Random(vlib.seed())
     extra = []
-    for n, length in ([(2, 12), (4, 20), (1, 6)] if tier == "quick" else [(n, l) for n in (1, 2, 4, 8) for l in (10, 40, 150)]):
+    # (one history of several hundred connections also in the quick tier: a leak of one slot / descriptor per bad connection needs that many)
+    for n, length in ([(2, 12), (4, 20), (1, 6), (2, 300)] if tier == "quick" else [(n, l) for n in (1, 2, 4, 8) for l in (10, 40, 150)] + [(4, 600), (16, 400)]):
         extra.append({"n": n, "hist": [rng.choice(["valid", "bad", "internal", "close", "bad", "close"]) for _ in range(length)]})
     with open(cases, "a") as f:
         for e in extra:
@@ -42,7 +43,7 @@ def run_histories(sc, tier, verdict):
     sample = None
     for n, lines in sorted(by_n.items()):
         name = "TraceServer_n%d" % n
-        d = instance(sc, name, "Trace_Server", n, 400)
+        d = instance(sc, name, "Trace_Server", n, 1000)
         tpath = os.path.join(d, "trace.ndjson")
         open(tpath, "w").writelines(lines)
         tv = vlib.validate_trace(name, tpath, spec_dir=d, heap="4g")
